@@ -3,7 +3,7 @@ EXTENDS Accessory, Json
 VARIABLES hist, bad, pre
 GInit == Init /\ hist = <<>> /\ bad = FALSE /\ pre = <<>>
 StepBad == \/ ((last'[1] = "Verify" /\ last'[4] = "ok") /\ last'[3] \notin paired)
-           \/ ((last'[1] \in {"Read", "Sub", "Unsub", "Write", "Remove", "Add"} /\ last'[4] = "ok") /\ ~Verified(last'[2]))
+           \/ ((last'[1] \in {"Read", "Sub", "Unsub", "Write", "Remove", "Add", "RemoveDuring"} /\ last'[4] = "ok") /\ ~Verified(last'[2]))
            \/ ~(got' \subseteq {k \in Conn : Verified(k) /\ k \in subs /\ k # last'[2]})
            \/ ~Discoverable'
            \/ (last'[1] \in {"Stop", "Start"} /\ paired' # paired)
@@ -11,7 +11,8 @@ Used(k) == \E i \in 1..Len(hist) : hist[i].conn = k
 Arg(l, i) == l[i]
 GNext == /\ Next
          /\ (Arg(last', 2) = "k2" => Used("k1")) /\ (Arg(last', 2) = "k3" => Used("k2"))
-         /\ hist' = Append(hist, [a |-> last'[1], conn |-> Arg(last', 2), x |-> Arg(last', 3), exp |-> Arg(last', 4), want |-> got'])
+         /\ hist' = Append(hist, [a |-> last'[1], conn |-> Arg(last', 2), x |-> Arg(last', 3), exp |-> Arg(last', 4), want |-> got',
+                                 k2 |-> IF Len(last') >= 5 THEN Arg(last', 5) ELSE "none"])
          /\ bad' = (bad \/ StepBad)
          /\ pre' = View
 MaxLen == 4
